@@ -166,6 +166,10 @@ def triage_failing(run: Run, sidecar: str, res: dict[str, Any]) -> None:
     for cid, d in res["_failing"]:
         func, clause = cid.split("/", 1)
         fkey = f"{func}/{clause}"
+        if func.startswith("lemma:") and res["undecided"]:
+            # a lemma over contracts is only as decided as the functions it speaks about
+            run.undecided.append(f"{cid}: depends on a function whose contract could not be bound ({'; '.join(res['undecided'])[:200]})")
+            continue
         base = {"obligation": cid, "clause_text": d["text"], "function": func, "sidecar": sidecar,
                 "solver_output": [{k: f[k] for k in ("vc", "verdict", "solver", "reason", "model", "second")} for f in d["failing"][:5]]}
         found = None
